@@ -49,6 +49,37 @@ int main(int argc,char **argv)
 		c->parse_pairs();
 		return replay_ok("(memory safety only; ASan)");
 	}
+	if(what=="stdin_stream") {
+		// the body hand-over: two consecutive STDIN record payloads of N and M bytes placed in body_ the way on_body_read leaves them,
+		// read with buffers of every size; the application must receive payload1 ++ payload2, each byte once, in order (sweep N,M,s in 1..6)
+		cppcms::json::value cfg; cfg["service"]["api"]="fastcgi"; cfg["service"]["socket"]="/var/tmp/cppcms-verif-replay.sock"; cfg["service"]["worker_threads"]=1;
+		cppcms::service srv(cfg);
+		booster::aio::io_service &ios=srv.impl().get_io_service();
+		for(size_t N=1;N<=6;N++) for(size_t M=1;M<=6;M++) for(size_t S=1;S<=7;S++) {
+			booster::shared_ptr<fastcgi> c(new fastcgi(srv));
+			std::string want,got;
+			c->content_length_=1000; c->read_length_=0; c->body_ptr_=0;
+			for(int rec=0;rec<2;rec++) {
+				size_t L=rec==0?N:M;
+				// arrival of the next record: on_header_read/on_body_read append the payload to body_ (empty at this point)
+				if(!c->body_.empty()) return replay_fail("body_ not empty when the next record arrives");
+				for(size_t i=0;i<L;i++) { char ch=(char)('a'+rec*8+i); c->body_.push_back(ch); want+=ch; }
+				size_t guard=0;
+				while(c->body_ptr_ < c->body_.size() && guard++<20) {
+					std::vector<char> buf(S,'?'); size_t n_rep=(size_t)-1; int calls2=0;
+					struct cb { size_t *n; int *calls; void operator()(booster::system::error_code const &,size_t n_) const { *n=n_; ++*calls; } } f={&n_rep,&calls2};
+					c->async_read_some(&buf[0],S,io_handler(f));
+					stopper st; st.s=&ios; ios.post(st); ios.run(); ios.reset();
+					if(calls2!=1) return replay_fail("io handler not invoked exactly once");
+					if(n_rep>S) return replay_fail("reported more bytes than the buffer holds");
+					got.append(&buf[0],n_rep);
+				}
+				if(c->body_ptr_ > c->body_.size()) { std::ostringstream m; m << "read cursor body_ptr_=" << c->body_ptr_ << " beyond body_.size()=" << c->body_.size() << " after a record of " << L << " bytes"; return replay_fail(m.str()); }
+			}
+			if(got!=want) { std::ostringstream m; m << "records of " << N << " and " << M << " bytes read with a " << S << "-byte buffer delivered \"" << got << "\" instead of \"" << want << "\""; return replay_fail(m.str()); }
+		}
+		return replay_ok("STDIN hand-over: N,M in 1..6, buffer 1..7");
+	}
 	cppcms::json::value cfg; cfg["service"]["api"]="fastcgi"; cfg["service"]["socket"]="/var/tmp/cppcms-verif-replay.sock"; cfg["service"]["worker_threads"]=1;
 	cppcms::service srv(cfg);
 	booster::shared_ptr<fastcgi> c(new fastcgi(srv));
